@@ -150,4 +150,39 @@ def upgmaTree (n : Nat) (d : Nat → Nat → α) : Option (NT α) :=
   | _ => none
 end
 
+
+/-! ## path lengths in a result tree (the notion NJ / UPGMA are judged by) -/
+section
+variable {α : Type}
+/-- leaf labels of a result tree, left to right -/
+def NT.leafIds : NT α → List Nat
+  | .leaf i => [i]
+  | .node f _ g _ => NT.leafIds f ++ NT.leafIds g
+
+/-- sum of the edge lengths from the root of `t` down to leaf `i` -/
+def NT.depthOf [Zero α] [Add α] : NT α → Nat → Option α
+  | .leaf j, i => if i = j then some 0 else none
+  | .node f lf g lg, i =>
+    match NT.depthOf f i with
+    | some x => some (x + lf)
+    | none => match NT.depthOf g i with
+      | some y => some (y + lg)
+      | none => none
+
+/-- length of the path between the leaves `i` and `j` of a result tree -/
+def NT.dist [Zero α] [Add α] : NT α → Nat → Nat → Option α
+  | .leaf _, _, _ => none
+  | .node f lf g lg, i, j =>
+    match NT.depthOf f i, NT.depthOf f j with
+    | some _, some _ => NT.dist f i j
+    | some x, none => match NT.depthOf g j with
+      | some y => some ((x + lf) + (y + lg))
+      | none => none
+    | none, some y => match NT.depthOf g i with
+      | some x => some ((x + lg) + (y + lf))
+      | none => none
+    | none, none => NT.dist g i j
+
+end
+
 end DendroModel.C14
